@@ -160,6 +160,8 @@ def run(tier, seed, replay=None):
         for name, (tpl, ind, qn) in DUP_DEFS.items():
             I = "    " * ind
             cells.append((name, "plain", "return", tpl.replace("{BODY}", I + "return 1\n" + I + "marker = 12345"), qn))
+        # a function whose NAME is the key pyscn uses for the module-level pseudo function
+        cells.append(("named___main__", "plain", "return", "def __main__(a, b, c):\n    return a\n    marker = 12345\n\nprint(__main__(1, 2, 3))\n", "__main__"))
         # gap variants: more than 5 / more than 10 lines between the terminator and the dead statement
         for gap in (5, 6, 11, 25):
             src = "def target(a, b, c):\n    return a\n" + "".join("    # filler %d\n" % j for j in range(gap)) + "    marker = 12345\n"
@@ -180,7 +182,7 @@ def run(tier, seed, replay=None):
                 hit = [x for fn in fns for x in (fn["findings"] or []) if x["location"]["start_line"] <= ml <= x["location"]["end_line"]]
                 if hit:
                     continue
-                sig = {"kind": "dup-qualname"} if dk in DUP_DEFS else {"kind": "cell", "def": dk, "enclosing": ek, "terminator": tk}
+                sig = {"kind": "dup-qualname"} if dk in DUP_DEFS else ({"kind": "reserved-name", "name": "__main__"} if dk == "named___main__" else {"kind": "cell", "def": dk, "enclosing": ek, "terminator": tk})
                 k = C.classify(PID, sig)
                 what = "C02: dead statement (line %d) after `%s` inside `%s` in a %s definition is not reported for function %s (report has functions %s)" % (
                     ml, tk, ek, dk, qn, [fn["name"] for fn in (fl["functions"] if fl else [])])
